@@ -346,7 +346,8 @@ EXTRA_TEXT = {
     "C04": " The day count behind the Unix time is the Gregorian calendar's for every year: epoch_day, next_day_same_month, next_day_month_rollover, next_day_year_rollover (omega).",
     "C05": " claim_inj: two successful builds yielding the same claim had the same schema hash, subject position and identifier, expiration, flags, version, nonce and (merklized) root.",
     "C11": " On documents whose nodes carry no types (all scoping by property) the document-side resolver, the context-side resolver and the specification of expansion give the same path whenever "
-           "two of them give one, at any depth and with positions (doc_eq_stored_partial, ctx_eq_doc_partial); the unrestricted statement is false of the code (d8_counterexample).",
+           "two of them give one, at any depth and with positions (doc_eq_stored_partial, ctx_eq_doc_partial); the unrestricted statement is false of the code (d8_counterexample). numeric_on_single_value / stored_key_single_member_has_no_member_one: where the document has no array a position other than 0 is an error "
+           "(defect D21, fixed in /repo 6390bbf).",
     "C19": " The loader model includes rel=\"alternate\" links (Origin.alt, recursion bounded by maxHops = the repaired code's bound): the invariant, load_fresh (returned document is Allowed: current - "
            "directly or through the page's link -, fresh storable, embedded), only_storable_received, failure_not_returned hold for every hop count; alternate_loop_is_error (defect D19, fixed) and "
            "alternate_page_reuses_target_document (known finding F9) are proved witnesses. The target of an alternate link goes through the scheme dispatch again (Loader.Route, a parameter of "
@@ -355,7 +356,7 @@ EXTRA_TEXT = {
            "plus its type-scoped contexts, property-scoped contexts for values, the count taken over the whole tree), and safe_success_stores_every_path proves that after a safe-mode success every dotted path "
            "addressing something in the document - any depth, array positions included - has a stored key under the specification of expansion (Ctx.storedKey). Also driven: MerklizeJSONLD through the "
            "library's own HTTP loader and cache over histories with re-published contexts, expiry and transient origin failures (a success is the merklization under one published revision).",
-    "C06": " Lists of proofs (Verify.selectProof / verifyList): list_accepted_one_proof_bound_and_valid - a credential with any list of proofs is accepted only if one and the same proof of the requested type "
+    "C06": " claim_hex_inj: the binding check compares the two claims by their hexadecimal spellings, and two claims with one spelling are one claim (Gsp.Hex). Lists of proofs (Verify.selectProof / verifyList): list_accepted_one_proof_bound_and_valid - a credential with any list of proofs is accepted only if one and the same proof of the requested type "
            "is bound to it and verifies over the claim it carries; list_only_first_of_type. Tie: op verify.list - lists mixing a bound-but-unsigned proof, a genuine proof of another credential and a proof of "
            "another type, in several orders, against the real VerifyProof.",
     "C12": " applyTypes_fails_at_any_position / doc_path_context_failure_is_error: a type-scoped context that cannot be applied makes every path resolution into that node an error, at whatever position of "
@@ -366,9 +367,15 @@ EXTRA_TEXT = {
            "dependentRequired (2020-12 only): if_then_else_spec, then_else_without_if_ignored, contains_spec_draft07, propertyNames_spec, dependentRequired_spec.",
     "C20": " interleaving_results_total (every load ends with a document or an error, never with neither, under every schedule) and interleaving_failing_url (a URL the origin does not serve is an error "
            "for every thread); the harness's bursts include failing URLs of six kinds.",
-    "C08": " smt_resolver_failure_rejected: a resolver error (whatever document accompanies it) or an answer without state information is a rejection, also for the genesis state; the harness's resolver errors "
+    "C09": " Which resolver answers is in the model (Gsp.Resolve, M6b): the verifier's own registry and the process-wide default one as finite maps refined to their history - resolver_is_last_registered (the resolver asked is the one "
+           "last registered under exactly that type in the registry in force), unregistered_type_is_error, other_types_do_not_answer (look-alike types are other keys), own_registry_isolated / default_registry_when_no_option. "
+           "Tie: op registry.run - histories of Register / Delete / look-up over both registries and families of look-alike type names, the resolver really asked by Get and by ValidateCredentialStatus vs the model's.",
+    "C14": " The spelling of the claim a proof carries (Gsp.Hex, M4b - hex.DecodeString / core.Claim.FromHex / Hex): claim_hex_roundtrip, claim_hex_case_irrelevant, claim_hex_spellings (the accepted spellings of a claim differ only in "
+           "the case of their digits), claim_hex_decoded_wf. Tie: op hex.claim - the three typed proof decoders and GetCoreClaim vs the model on valid, recased, mis-sized, non-digit and out-of-field spellings.",
+    "C08": " The DID resolver's document is in the model (Gsp.Resolve.stateInfo / resolvedOf): state_entry_is_first_of_its_type, other_methods_irrelevant, trailing_methods_irrelevant, later_state_entries_irrelevant, "
+           "no_state_entry_rejected, smtp_verdict_ignores_other_methods; the harness hands the verifier whole DID documents (state entry among 0-4 verification methods of other types, struct or JSON) and the model the same list. smt_resolver_failure_rejected: a resolver error (whatever document accompanies it) or an answer without state information is a rejection, also for the genesis state; the harness's resolver errors "
            "come with an empty document, a 'published' one or one without the flag.",
-    "C07": " bjj_resolver_failure_rejected (as for C08), bjj_congr (no hidden input: the verdict is a function of the bundle's members). The same verification also runs through verifiable.HTTPDIDResolver against a scripted gateway (transient 5xx): same verdict, same questions asked. Known finding F8: status nonces are read back through float64 inside VerifyProof; the model receives the nonce as the verifier reads it (oracle column).",
+    "C07": " bjj_verdict_ignores_other_methods, bjj_no_state_entry_rejected, bjj_status_type_not_in_own_registry_rejected (a status type the verifier's own registry does not hold is a rejection - the default registry is not consulted; Gsp.Resolve). bjj_resolver_failure_rejected (as for C08), bjj_congr (no hidden input: the verdict is a function of the bundle's members). The same verification also runs through verifiable.HTTPDIDResolver against a scripted gateway (transient 5xx): same verdict, same questions asked. Known finding F8: status nonces are read back through float64 inside VerifyProof; the model receives the nonce as the verifier reads it (oracle column).",
 }
 _FACTS = (" Regenerated tie: on every run a small go/ast translator (harness `facts`) reads {what} off the source and bin/check generates a Lean file whose theorems "
           "(SourceFacts.{thms}) prove that the model's definitions are those very values; a change of the source breaks the obligation by name.")
@@ -380,7 +387,9 @@ for _pid, _what, _thms in [
     ("C16", "every function returning a MerklizeOption with the one Merklizer field its body assigns", "merklize_options_are_models; Props.C16.option_order_irrelevant, later_options_keep_hasher, applyOpt_comm: options that set different fields commute, so the order they are listed in is no input (the harness varies it)"),
     ("C19", "the bound on alternate links", "alternate_hops_is_models"),
     ("C12", "the bound on alternate links and the depth of every tree the merklizer creates", "alternate_hops_is_models, tree_depth_is_models"),
-    ("C09", "the size limit of a status response", "status_limit_is_models"),
+    ("C09", "the size limit of a status response, the comparisons of the HTTP status code, and how the registry's methods key their map (by their own parameter, as given; no mention of the default registry)", "status_limit_is_models, status_code_conds_are_models, registry_key_use_is_models"),
+    ("C07", "the type literal and first-match rule of getIden3StateInfo2023FromDIDDocument and how the registry's methods key their map", "state_info_type_is_models, registry_key_use_is_models"),
+    ("C08", "the type literal and first-match rule of getIden3StateInfo2023FromDIDDocument", "state_info_type_is_models"),
     ("C02", "the depth of every tree the merklizer creates", "tree_depth_is_models"),
     ("C13", "the depth of every tree the merklizer creates and the safe-mode value of every Merklizer literal", "tree_depth_is_models, safe_default_is_models"),
     ("C15", "the safe-mode value every Merklizer literal starts with", "safe_default_is_models"),
